@@ -640,3 +640,12 @@ Proof.
     rewrite (declared_position_nth decl i k p Hnd Hi). reflexivity.
   - intros r. apply explicit_values. exact Hnd.
 Qed.
+
+Lemma explicit_positions_hand decl :
+  NoDup (map fst decl) ->
+  (forall k r, nav_name (hand_schema_at decl) k r
+               = match declared_cell key_eqb decl k r with Some v => Ok v | None => Err KeyError end)
+  /\ (forall i k p r, nth_error decl i = Some (k, p) ->
+                      nav_name (hand_schema_at decl) k r = Ok (nth_error r p))
+  /\ (forall r, values (hand_schema_at decl) r = Ok (cells_at decl r)).
+Proof. exact (explicit_positions decl). Qed.
